@@ -141,6 +141,9 @@ func worker(args []string) {
 	if !sim.RaceEnabled {
 		limitAddressSpace(6 << 30)
 	}
+	if *prop == "C19" {
+		limitOpenFiles(96)
+	}
 	emit := func(m msg) {
 		b, _ := json.Marshal(m)
 		out.Write(b)
